@@ -5,3 +5,6 @@ import Hyeong.Props.C13
 #print axioms HyE.C13.exit_codes
 #print axioms HyE.C13.check_total
 #print axioms HyE.C13.partial_ops_inventory
+#print axioms HyE.C13.cli_outcome_bytes
+#print axioms HyE.C13.bytes_of_text
+#print axioms HyE.C13.undecodable_input_diagnosed
